@@ -183,7 +183,7 @@ package propertyf
 //
 //@ func (*StatPropMsgBody).ResetDefault
 //@   requires st != nil
-//@   modifies *st
+//@   pure
 //@   safety [C05]
 //
 //@ func (*StatPropMsgBody).ReadFrom
